@@ -137,6 +137,30 @@ example : ∃ (oe oe' : Extent) (P : ℤ), oe ≠ oe' ∧ ∀ r c, (oe.inb r c &
     simp only [Bool.and_eq_true, Extent.inb_iff, propExtent, arrayExtent_eq] at h ⊢
     omega⟩
 
+/-- **the whole chain for nested windows: `0 ≤ E(W₁) ≤ E(W₂) ≤ input power`.** Two calls of `propagate_dft` on the same tilt-free
+fields on the wavefront canvas, commensurate sampling `α = (1/K, 1/L)` with `K, L ≥` canvas, nested evaluated windows, and any
+set `B` of plane coordinates inside one period: the first call's energy over `B` is non-negative, at most the second's, and the
+second's is at most the input power `Σ|total field|²` (`propagate_dft_nested_windows` composed with `propagate_dft_energy`). -/
+theorem propagate_dft_nested_windows_le_input_power (fs : List (Fld ℂ)) (S0 S1 K L : ℕ) (hfit : ∀ f ∈ fs, Fits f S0 S1)
+    (hK : 0 < K) (hL : 0 < L) (hS0 : S0 ≤ K) (hS1 : S1 ≤ L) (oe oe' : Extent) (P0 P1 P0' P1' : ℤ)
+    (hoe : oe.rmin ≤ oe.rmax ∧ oe.cmin ≤ oe.cmax) (hP : 0 < P0 ∧ 0 < P1)
+    (hoe' : oe'.rmin ≤ oe'.rmax ∧ oe'.cmin ≤ oe'.cmax) (hP' : 0 < P0' ∧ 0 < P1')
+    (hsub : ∀ r c, (oe.inb r c && (propExtent P0 P1 0 0).inb r c) = true →
+      (oe'.inb r c && (propExtent P0' P1' 0 0).inb r c) = true)
+    (B : Finset (ℤ × ℤ)) (hB : B ⊆ periodBox K L) :
+    0 ≤ ∑ p ∈ B, Complex.normSq
+        ((fs.map fun f => embO (propagateField (⟨f, 0, 0, 0, 0⟩ : TField ℂ ℝ) (1 / (K : ℝ)) (1 / (L : ℝ)) oe P0 P1) p.1 p.2).sum) ∧
+    ∑ p ∈ B, Complex.normSq
+        ((fs.map fun f => embO (propagateField (⟨f, 0, 0, 0, 0⟩ : TField ℂ ℝ) (1 / (K : ℝ)) (1 / (L : ℝ)) oe P0 P1) p.1 p.2).sum)
+      ≤ ∑ p ∈ B, Complex.normSq
+        ((fs.map fun f => embO (propagateField (⟨f, 0, 0, 0, 0⟩ : TField ℂ ℝ) (1 / (K : ℝ)) (1 / (L : ℝ)) oe' P0' P1') p.1 p.2).sum) ∧
+    ∑ p ∈ B, Complex.normSq
+        ((fs.map fun f => embO (propagateField (⟨f, 0, 0, 0, 0⟩ : TField ℂ ℝ) (1 / (K : ℝ)) (1 / (L : ℝ)) oe' P0' P1') p.1 p.2).sum)
+      ≤ arrSum (intensity (R := ℝ) (embedAll fs S0 S1)) :=
+  ⟨(propagate_dft_nested_windows fs _ _ oe oe' P0 P1 P0' P1' hoe hP hoe' hP' hsub B).1,
+   (propagate_dft_nested_windows fs _ _ oe oe' P0 P1 P0' P1' hoe hP hoe' hP' hsub B).2,
+   (propagate_dft_energy fs S0 S1 K L hfit hK hL hS0 hS1 oe' P0' P1' hoe' hP' B hB).1⟩
+
 /-- **nested sets of output samples of one call capture nested energies** (over the C02 model, any fields, any window
 parameters) — monotonicity in the summation set; for nested windows of two calls see `propagate_dft_nested_windows`. -/
 theorem propagate_dft_energy_monotone (fs : List (Fld ℂ)) (αr αc : ℝ) (oe : Extent) (P0 P1 : ℤ) (B B' : Finset (ℤ × ℤ)) (h : B ⊆ B') :
@@ -249,6 +273,26 @@ theorem pupil_images_to_amplitude_power (wl : ℝ) (amp : Attr ℂ) (opd : Attr 
       = ∑ i ∈ range S0, ∑ j ∈ range S1, (if g.m i j = true then Complex.normSq (amp.at i j) else 0) :=
   pupil_image_total_aux wl amp opd S0 S1 K L g hc hbig hK hL hS0 hS1 oe P0 P1 hoe hP hcover
 
+/-- **a window of a commonly tilted wavefront captures no more than the input power.** Fields sharing one tilt `fix + sub`
+(a tilted segmented pupil), propagation shape one period `K × L`, output extent containing the displaced propagation extent: over
+any set `B` of samples of the displaced period (indexed `(u, v) ∈ [0, K) × [0, L)` from its first sample) the intensity
+`|Σ fields|²` is non-negative and at most the input power `Σ|total field|²` — the "any smaller window" clause for tilted fields,
+from `common_tilt_period_energy` and non-negativity of the summands. -/
+theorem common_tilt_window_energy_le (fs : List (Fld ℂ)) (S0 S1 K L : ℕ) (hfit : ∀ f ∈ fs, Fits f S0 S1) (hK : 0 < K) (hL : 0 < L)
+    (hS0 : S0 ≤ K) (hS1 : S1 ≤ L) (fix0 fix1 : ℤ) (sub0 sub1 : ℝ) (oe : Extent) (hoe : oe.rmin ≤ oe.rmax ∧ oe.cmin ≤ oe.cmax)
+    (hcover : ∀ r c, (propExtent K L fix0 fix1).inb r c = true → oe.inb r c = true)
+    (B : Finset (ℕ × ℕ)) (hB : B ⊆ range K ×ˢ range L) :
+    0 ≤ ∑ q ∈ B, Complex.normSq
+        ((fs.map fun f => embO (propagateField (⟨f, fix0, fix1, sub0, sub1⟩ : TField ℂ ℝ) (1 / (K : ℝ)) (1 / (L : ℝ)) oe K L)
+          (-((K : ℤ) / 2) + fix0 + q.1) (-((L : ℤ) / 2) + fix1 + q.2)).sum) ∧
+    ∑ q ∈ B, Complex.normSq
+        ((fs.map fun f => embO (propagateField (⟨f, fix0, fix1, sub0, sub1⟩ : TField ℂ ℝ) (1 / (K : ℝ)) (1 / (L : ℝ)) oe K L)
+          (-((K : ℤ) / 2) + fix0 + q.1) (-((L : ℤ) / 2) + fix1 + q.2)).sum)
+      ≤ arrSum (intensity (R := ℝ) (embedAll fs S0 S1)) := by
+  refine ⟨sum_nonneg fun _ _ => Complex.normSq_nonneg _, ?_⟩
+  rw [← common_tilt_period_energy fs S0 S1 K L hfit hK hL hS0 hS1 fix0 fix1 sub0 sub1 oe hoe hcover, ← Finset.sum_product']
+  exact sum_le_sum_of_subset_of_nonneg hB (fun _ _ _ => Complex.normSq_nonneg _)
+
 /-- **a normalised pupil images to total `p`** — the property's "and therefore images to total p" as one statement. The
 amplitude is `normalize_power(a, p)` (factor regenerated from `util.py`) of an array `a` of the plane's shape with non-zero power
 that vanishes outside the mask, `p ≥ 0`; the fresh wavefront times that pupil (C07 `Plane.multiply`, monolithic mask with a
@@ -302,5 +346,22 @@ theorem multi_tilt_period_energy (ts : List (TField ℂ ℝ)) (S0 S1 K L : ℕ) 
       = arrSum (intensity (R := ℝ) (embedAll (ts.map fun t =>
           rampFld t.fld (1 / (K : ℝ)) (1 / (L : ℝ)) ((t.fix0 : ℝ) + t.sub0) ((t.fix1 : ℝ) + t.sub1)) S0 S1)) :=
   multi_tilt_period_energy_aux ts S0 S1 K L hfit hK hL hS0 hS1 oe P0 P1 hoe hP hcover
+
+/-- **a window of a wavefront whose fields carry different tilts captures no more than the power of the coherently summed ramped
+inputs.** Under the hypotheses of `multi_tilt_period_energy` (every field's window covers the period), over any set `B` of plane
+coordinates inside the period the intensity `|Σ fields|²` is non-negative and at most that reference power. -/
+theorem multi_tilt_window_energy_le (ts : List (TField ℂ ℝ)) (S0 S1 K L : ℕ) (hfit : ∀ t ∈ ts, Fits t.fld S0 S1) (hK : 0 < K) (hL : 0 < L)
+    (hS0 : S0 ≤ K) (hS1 : S1 ≤ L) (oe : Extent) (P0 P1 : ℤ) (hoe : oe.rmin ≤ oe.rmax ∧ oe.cmin ≤ oe.cmax) (hP : 0 < P0 ∧ 0 < P1)
+    (hcover : ∀ t ∈ ts, ∀ q ∈ periodBox K L, (oe.inb q.1 q.2 && (propExtent P0 P1 t.fix0 t.fix1).inb q.1 q.2) = true)
+    (B : Finset (ℤ × ℤ)) (hB : B ⊆ periodBox K L) :
+    0 ≤ ∑ q ∈ B, Complex.normSq
+        ((ts.map fun t => embO (propagateField t (1 / (K : ℝ)) (1 / (L : ℝ)) oe P0 P1) q.1 q.2).sum) ∧
+    ∑ q ∈ B, Complex.normSq
+        ((ts.map fun t => embO (propagateField t (1 / (K : ℝ)) (1 / (L : ℝ)) oe P0 P1) q.1 q.2).sum)
+      ≤ arrSum (intensity (R := ℝ) (embedAll (ts.map fun t =>
+          rampFld t.fld (1 / (K : ℝ)) (1 / (L : ℝ)) ((t.fix0 : ℝ) + t.sub0) ((t.fix1 : ℝ) + t.sub1)) S0 S1)) := by
+  refine ⟨sum_nonneg fun _ _ => Complex.normSq_nonneg _, ?_⟩
+  rw [← multi_tilt_period_energy ts S0 S1 K L hfit hK hL hS0 hS1 oe P0 P1 hoe hP hcover]
+  exact sum_le_sum_of_subset_of_nonneg hB (fun _ _ _ => Complex.normSq_nonneg _)
 
 end Lentil.C05
